@@ -105,6 +105,8 @@ def extract_witness(m, inputs, entry_heap):
             out[name] = {"kind": k}
         elif k == "const":
             out[name] = v
+        elif k == "ds":
+            out[name] = {"error": "dataset witness not extracted (bounded contract evaluation supplies concrete inputs)"}
         else:
             out[name] = _val_scalar(m, v)
     return out
@@ -201,6 +203,25 @@ def _solve_one(i):
         detail = ""
     elif r == z3.unknown:
         detail = s.reason_unknown()
+        # candidate counterexample from the quantifier-free part (may be spurious: it is only ever used as an input
+        # to replay on the real code, never as a verdict)
+        try:
+            s4 = z3.Solver()
+            s4.set("timeout", 3000)
+            for h in ob.formula():
+                if not _has_quant(h):
+                    s4.add(h)
+            shp = []
+            for name, t, v in ob.inputs:
+                if t[0] == "arr":
+                    shp += list(v.shape)
+            for d in shp:
+                s4.add(d <= 6)
+            if s4.check() == z3.sat:
+                wit = extract_witness(s4.model(), ob.inputs, _CFG["entry_heaps"].get(id(ob.inputs), {}))
+                detail += "; candidate input from the ground part attached"
+        except Exception:
+            wit = None
     return (i, res, time.time() - t0, backend, detail, wit)
 
 
